@@ -30,6 +30,9 @@ def universes_c09():
     us["repl"] = [
         E("a1", "A", 10000, 10), E("a2", "A", 10000, 20), E("a2x", "A", 10000, 20, [["t", "tie"]]), E("a3", "A", 10000, 30),
         E("b1", "B", 10000, 15), E("k1", "A", 10001, 5), E("n1", "A", 1, 5),
+        # a newer version that is malformed where no validator looks (an expiration tag without a value): if the relay refuses it,
+        # the versions that are stored stay
+        E("ax", "A", 10000, 40, [["expiration"]], dub=True),
     ]
     us["meta"] = [
         E("m1", "A", 0, 10), E("m2", "A", 0, 20), E("m3", "A", 0, 30), E("c1", "A", 3, 15), E("c2", "A", 3, 25),
@@ -51,6 +54,7 @@ def universes_c09():
         E("q0", "A", 30000, 10), E("qb", "A", 30000, 20, [["d"]]), E("qe", "A", 30000, 30, [["d", ""]]),
         E("qa", "A", 30000, 15, [["d", "a"]]), E("q1", "A", 30000, 40), E("qa2", "A", 30000, 35, [["d", "a"]]),
         E("qt", "A", 30000, 25, [["t", "x"], ["d", ""]]),
+        E("qx", "A", 30000, 50, [["d", "a"], ["expiration"]], dub=True),
     ]
     us["bounds"] = [
         E("r19a", "A", 19999, 10), E("r19b", "A", 19999, 20), E("e20a", "A", 20000, 10), E("e20b", "A", 20000, 20),
